@@ -305,10 +305,12 @@ def cmd_check(pid, tier):
     if b["harness_error"]:
         lines.append(f"HARNESS-ERROR: {b['harness_error']}")
         rc = rc or 2
-    if rc == 0 and hasattr(mod, "reach_check"):
-        miss = mod.reach_check(b["stats"], tier)
-        if miss:
-            extra["reach_gaps"] = miss
+    gaps = [k for k in getattr(mod, "REACH", []) if not any(c.startswith(k) and v for c, v in b["stats"].c.items())]
+    if hasattr(mod, "reach_check"):
+        gaps += mod.reach_check(b["stats"], tier)
+    extra["reach_gaps"] = gaps
+    if gaps:
+        lines.append(f"[{pid}] reach: counters still at zero in this batch: {gaps}")
     write_evidence(pid, tier, verif_seed, mod, b, nviol, extra)
     for ln in lines:
         print(ln)
